@@ -472,19 +472,24 @@ def traced(jobs, check, tag, timeout=900, chunk_limit=250000):
     # chunk table keyed by (hash, content); the 31-bit hash of the hook is resolved per job (it is only unique within a job:
     # with several 10^5 chunks in one batch two different chunks do share a hash)
     cp = os.path.join(d, "chunks.ndjson")
-    by_code, job_h = {}, []
-    with open(cp, "w") as f:
-        for r in res:
-            hm = {}
-            for st in r:
-                if isinstance(st, dict) and "listing" in st:
-                    for ch in st["listing"]:
-                        ck = (ch["h"], json.dumps(ch["code"], sort_keys=True))
-                        if ck not in by_code:
-                            by_code[ck] = len(by_code) + 1
-                            f.write(json.dumps({"h": ch["h"], "code": ch["code"]}) + "\n")
-                        hm[ch["h"]] = by_code[ck]
-            job_h.append(hm)
+    by_code, job_h, glob_h = {}, [], {}
+    cf = open(cp, "w")
+
+    def intern(ch, hm):
+        ck = (ch["h"], json.dumps(ch["code"], sort_keys=True))
+        if ck not in by_code:
+            by_code[ck] = len(by_code) + 1
+            cf.write(json.dumps({"h": ch["h"], "code": ch["code"]}) + "\n")
+        hm[ch["h"]] = by_code[ck]
+        glob_h.setdefault(ch["h"], set()).add(by_code[ck])
+
+    for r in res:
+        hm = {}
+        for st in r:
+            if isinstance(st, dict) and "listing" in st:
+                for ch in st["listing"]:
+                    intern(ch, hm)
+        job_h.append(hm)
     out = [r[:j["_nsteps"]] for r, j in zip(res, jl)]
     enter_re = re.compile(r'"h":(\d+),')
     job_re = re.compile(r'"job":(\d+)')
@@ -504,13 +509,26 @@ def traced(jobs, check, tag, timeout=900, chunk_limit=250000):
                 if line.startswith('{"e":"reset"'):
                     mj = job_re.search(line)
                     hidx = job_h[int(mj.group(1))] if mj and int(mj.group(1)) < len(job_h) else {}
+                if line.startswith('{"e":"listing"'):
+                    # a one-off template (render_str) exists only during the call: the hook puts the listing of the very
+                    # compilation that runs into the trace (a second compilation can differ: keyword arguments sit in a HashMap)
+                    intern(json.loads(line)["l"], hidx)
+                    continue
                 if line.startswith('{"e":"enter"'):
                     m = enter_re.search(line)
-                    line = line.replace('{"e":"enter",', '{"e":"enter","c":%d,' % hidx.get(int(m.group(1)), 0), 1)
+                    hv = int(m.group(1))
+                    ci = hidx.get(hv, 0)
+                    if ci == 0 and len(glob_h.get(hv, ())) == 1:
+                        # a one-off source is compiled again for its listing and the compiler iterates a HashMap of keyword
+                        # arguments, so the second compilation can differ from the one that ran; another job of the batch
+                        # that compiled the same source the same way supplies the listing (only if the hash is unambiguous)
+                        ci = next(iter(glob_h[hv]))
+                    line = line.replace('{"e":"enter",', '{"e":"enter","c":%d,' % ci, 1)
                 cur.append(line)
                 n += 1
     if cur:
         pieces.append(cur)
+    cf.close()
     # a trace cut short by an abort has no "end": drop incomplete tails
     for k, piece in enumerate(pieces):
         pp = os.path.join(d, "piece-%d.ndjson" % k)
